@@ -121,3 +121,6 @@ CFG["manifest"] = dict(
           "extraction + OCaml glue (cross-checked by vm_compute sample); Go harness; Unicode tables as dumped from the toolchain."),
     technique="Coq proof (round-trip quote/unquote, induction over attribute trees) + differential correspondence with table oracles",
 )
+
+import tables  # constant tables / literals of the current source proved equal to the model's on every run (lib/tables.py)
+CFG["secondary"] = CFG.get("secondary", []) + [tables.C13_TABLES]
